@@ -1792,7 +1792,7 @@ register("C09", run_C09, ["C09.C09_error_span", "C09.C09_kinds", "C09.C09_nonter
 register("C10", run_C10, ["C10.C10_one_start_one_terminal", "C10.C10_ok_sound", "C10.C10_err_truthful", "C10.C10_truthful_not_wellFormed", "C10.C10_ok_iff_wellFormed", "C10.C10_no_panic"])
 register("C11", run_C11, ["C11.C11_attached_automaton", "C11.C11_setAction_conflict", "C11.C11_payload"])
 register("C12", run_C12, ["C12.C12_emit", "C12.C12_token", "C12.C12_order"])
-register("C13", run_C13, ["C13.C13_use_sites", "C13.C13_type_order", "C13.C13_type_tokens"])
+register("C13", run_C13, ["C13.C13_use_sites", "C13.C13_type_order", "C13.C13_type_tokens", "C13.C13_field_sites", "C13.C13_getType_declared"])
 register("C14", run_C14, ["C14.C14_ofList_perm", "C14.C14_table_order_independent"])
 register("C15", run_C15, ["C15.C15_spec", "C15.C15_roundtrip", "C15.C15_fresh"])
 register("C16", run_C16, ["C16.C16_layout_insensitive", "C16.C16_leading_whitespace_end_to_end", "C16.C16_translation_invariant", "C16.C16_leading_whitespace", "C16.C16_skip_whitespace", "C16.C16_tokenize_eq_spec", "C16.C16_skip_comment", "C16.C16_trailing_comment"])
